@@ -82,6 +82,11 @@ pub fn walk_args(input: &Value, files0: Option<&std::path::Path>) -> Vec<String>
     if form % 2 == 1 {
         depth_opts(&mut a);
     }
+    // (one case in six: an -exec whose command has arguments that look like find's own global options - they are the
+    // command's business; the command is `true`, so the test is true wherever it stands)
+    if form % 6 == 5 && input.get("byino").is_none() {
+        a.extend(["-exec", "true", "-d", "-depth", "-mount", ";"].iter().map(|x| x.to_string()));
+    }
     let prune: Vec<String> = arr(&cfg["prune"]).iter().map(json_to_string).collect();
     if prune.is_empty() {
         a.push("-print0".into());
@@ -487,15 +492,17 @@ impl Prop for PWalk {
                     // ... the link one directory down, its text relative to that directory (not to where find runs)
                     tree.push(json!({"parent": 0, "name": str_to_json("hd"), "kind": "d", "target": 0}));
                     let hd = tree.len();
-                    let mut text = b"../".to_vec();
-                    text.extend(json_to_bytes(&tree[d - 1]["name"]));
-                    tree.push(json!({"parent": hd, "name": str_to_json("hroot"), "kind": "l", "target": d, "text": bytes_to_json(&text)}));
+                    tree.push(json!({"parent": hd, "name": str_to_json("hroot"), "kind": "l", "target": d, "reltext": true}));
                     let k = tree.len();
                     roots = vec![json!({"spell": str_to_json("hd/hroot"), "node": k})];
                 }
                 cfg["mode"] = json!("H");
                 cfg["depth"] = json!(true);
                 mode = "H";
+                if rng.chance(1, 3) {
+                    cfg["min"] = json!(0);
+                    cfg["max"] = json!(rng.below(2));
+                }
             }
         }
         let roots_last_empty = roots.last().map(|r| arr(&r["spell"]).is_empty()).unwrap_or(false);
@@ -512,6 +519,9 @@ impl Prop for PWalk {
                 v["cwd_node"] = json!(t);
                 v["implicit"] = json!(rng.chance(2, 3));
             }
+        }
+        if self.flavour == "C18" && rng.chance(1, 4) {
+            v["cfg"]["xdev"] = json!(true);
         }
         if use_files0 {
             v["files0"] = json!(true);
